@@ -448,7 +448,15 @@ def run_check(spec, tier, seed):
             ctx.obligation("leanchecker", p.returncode == 0, (p.stdout + p.stderr)[-500:])
         # 4. correspondence
         if drv_ok:
-            spec.correspond(ctx)
+            try:
+                spec.correspond(ctx)
+            except Infra:
+                raise
+            except Exception as e:
+                # the correspondence code itself fell over: on a changed tree this usually means the implementation's
+                # intermediate results no longer have the shape/behaviour the model has -> a broken tie, then search
+                ctx.broken.append("correspondence harness raised %s: %s" % (type(e).__name__, str(e)[:300]))
+                ctx.notes.append(traceback.format_exc()[-2000:])
         # 5/6. direct predicate search; deeper if something broke
         spec.search(ctx, deep=bool(ctx.broken) or not ctx.quick)
         return finish(ctx, spec)
